@@ -155,7 +155,7 @@ def build_driver():
     stamp = os.path.join(od, 'stamp')
     if os.path.exists(stamp) and open(stamp).read() == hh and os.path.exists(DRIVER):
         return True, 'cached'
-    ok, lg = coq_make(['theories/Db.vo'])
+    ok, lg = coq_make(['theories/Probe.vo'])
     if not ok:
         return False, lg
     r = sh(['timeout', '600', 'coqc', '-Q', os.path.join(COQ, 'gen'), 'Aby', '-Q', os.path.join(COQ, 'theories'), 'Aby',
@@ -194,11 +194,22 @@ def run_impl(opsfile, workdir, timeout=300, op_timeout=20, dump=None, release=Fa
     return lines, 'crash:%d' % r.returncode
 
 
+MODEL_FEATURES = {}      # which paths of the model the histories of this run exercised (driver side file)
+
+
 def run_model(opsfile, timeout=600, dump=None):
     cmd = [DRIVER, 'run', opsfile]
     if dump:
         cmd += ['--dump', dump]
-    r = subprocess.run(cmd, capture_output=True, text=True, timeout=timeout)
+    ff = opsfile + '.features'
+    r = subprocess.run(cmd, capture_output=True, text=True, timeout=timeout, env=dict(os.environ, VERIF_FEATURES=ff))
+    try:
+        for l in open(ff):
+            k, v = l.split()
+            MODEL_FEATURES[k] = MODEL_FEATURES.get(k, 0) + int(v)
+        os.remove(ff)
+    except OSError:
+        pass
     lines = r.stdout.split('\n')
     if lines and lines[-1] == '':
         lines.pop()
